@@ -102,6 +102,83 @@ example : globMatch (parsePat "Force HF/*".toList) "Force HF/Force 1x".toList = 
 example : globMatch (parsePat "*/Force 1y".toList) "Force HF/Force 1x".toList = false := by decide +kernel
 example : globMatch (parsePat "Force HF".toList) "Force HF/Force 1x".toList = false := by decide +kernel
 
+/-! ## The whole tree written under omit patterns -/
+
+/-- A node is written with its data and attributes iff it is a node of the source whose own path no omit pattern matches
+    — whatever happens to its parent group. -/
+theorem omit_tree_explicit (pats : List (List Pat)) (nodes : List (List Char)) (p : List Char) :
+    (⟨p, true⟩ : OutNode) ∈ writeOmit pats nodes ↔ p ∈ nodes ∧ ∀ q ∈ pats, ¬ Matches q p := by
+  unfold writeOmit
+  rw [writeOmit_aux_explicit]
+  have : exported pats p = true ↔ ∀ q ∈ pats, ¬ Matches q p := by
+    unfold exported
+    simp only [Bool.not_eq_true', List.any_eq_false, ← globMatch_iff]
+  rw [this]
+  simp
+
+/-- The paths present in the output are exactly the exported nodes and their ancestors (bare parents re-created for
+    kept children of an omitted group); nothing else appears. -/
+theorem omit_tree_present (pats : List (List Pat)) (nodes : List (List Char)) (p : List Char) :
+    (∃ n ∈ writeOmit pats nodes, n.path = p) ↔
+      ∃ q ∈ nodes, exported pats q = true ∧ (p = q ∨ p ∈ ancestors q) := by
+  have := writeOmit_aux_path pats nodes [] p
+  unfold HasPath at this
+  unfold writeOmit
+  rw [this]
+  simp
+
+/-- `ancestors` are the proper prefixes that end right before a `/` -/
+theorem mem_ancestors (p g : List Char) : g ∈ ancestors p ↔ ∃ rest, p = g ++ '/' :: rest := by
+  unfold ancestors
+  rw [List.mem_filterMap]
+  constructor
+  · rintro ⟨i, hi, h⟩
+    split at h
+    · rename_i hc
+      simp only [Option.some.injEq] at h
+      subst h
+      refine ⟨p.drop (i + 1), ?_⟩
+      have hlt : i < p.length := by simpa using hi
+      have : p[i] = '/' := by
+        rw [List.getElem?_eq_getElem hlt] at hc; simpa using hc
+      conv => lhs; rw [← List.take_append_drop i p]
+      rw [List.drop_eq_getElem_cons hlt, this]
+    · cases h
+  · rintro ⟨rest, rfl⟩
+    refine ⟨g.length, by simp, ?_⟩
+    simp
+
+/-- the status letters printed by the protocol op mean what the theorems talk about -/
+theorem node_status_spec (out : List OutNode) (p : List Char) :
+    (nodeStatus out p = "E" ↔ (⟨p, true⟩ : OutNode) ∈ out) ∧
+    (nodeStatus out p = "A" ↔ ¬ ∃ n ∈ out, n.path = p) := by
+  have hE : (out.any (fun n => n.path == p && n.explicit) = true) ↔ (⟨p, true⟩ : OutNode) ∈ out := by
+    rw [List.any_eq_true]
+    constructor
+    · rintro ⟨n, hn, h⟩
+      simp only [Bool.and_eq_true, beq_iff_eq] at h
+      obtain ⟨n1, n2⟩ := n
+      simp only at h
+      rw [← h.1, ← h.2]; exact hn
+    · intro h; exact ⟨_, h, by simp⟩
+  have hP : (out.any (fun n => n.path == p) = true) ↔ ∃ n ∈ out, n.path = p := by
+    rw [List.any_eq_true]; simp
+  unfold nodeStatus
+  by_cases h1 : out.any (fun n => n.path == p && n.explicit) = true
+  · rw [if_pos h1]
+    have hp : ∃ n ∈ out, n.path = p := ⟨_, hE.mp h1, rfl⟩
+    exact ⟨⟨fun _ => hE.mp h1, fun _ => rfl⟩, ⟨fun h => absurd h (by decide), fun h => absurd hp h⟩⟩
+  · rw [if_neg h1]
+    by_cases h2 : out.any (fun n => n.path == p) = true
+    · rw [if_pos h2]
+      exact ⟨⟨fun h => absurd h (by decide), fun h => absurd (hE.mpr h) h1⟩, ⟨fun h => absurd h (by decide), fun h => absurd (hP.mp h2) h⟩⟩
+    · rw [if_neg h2]
+      exact ⟨⟨fun h => absurd h (by decide), fun h => absurd (hE.mpr h) h1⟩, ⟨fun _ => fun h => h2 (hP.mpr h), fun _ => rfl⟩⟩
+
+/-- omitting a group does not omit its children; the group reappears bare as their parent -/
+example : (writeOmit [parsePat "A".toList] ["A".toList, "A/x".toList, "B".toList]).map (fun n => (String.ofList n.path, n.explicit))
+    = [("A", false), ("A/x", true), ("B", true)] := by decide +kernel
+
 /-! ## Cropped export of numerical channels -/
 
 /-- A written channel holds exactly the source samples with `a ≤ t < b` (C01's theorem applied to the
